@@ -64,12 +64,22 @@ template <class T> static bool cmp_exact(pbt::Ctx& c, const char* key, const T* 
 	}
 	return true;
 }
-// true when the n x n block is within the bound; the metric is only recorded for matching results (used where one of several readings may hold)
+// worst err/tol over the n x n block (infinite for NaN); used where one of several readings may hold: the metric is recorded for the reading that fits best only
+template <class T> static R worst_ratio(const T* g, const Prod& p, int n) {
+	R w = 0;
+	for (int cc = 0; cc < n; ++cc) for (int r = 0; r < n; ++r) { R e = rabs((R)g[4 * cc + r] - p.want.m[cc][r]); if (!(e == e)) return INFINITY; if (e != 0) w = rmax(w, e / p.tol.m[cc][r]); }
+	return w;
+}
 template <class T> static bool matches(pbt::Ctx& c, const char* metric, const T* g, const Prod& p, int n) {
-	bool ok = true;
-	for (int cc = 0; cc < n; ++cc) for (int r = 0; r < n; ++r) { R e = rabs((R)g[4 * cc + r] - p.want.m[cc][r]); if (!(e <= p.tol.m[cc][r])) ok = false; }
-	if (ok) for (int cc = 0; cc < n; ++cc) for (int r = 0; r < n; ++r) within(c, metric, rabs((R)g[4 * cc + r] - p.want.m[cc][r]), p.tol.m[cc][r]);
-	return ok;
+	R w = worst_ratio(g, p, n);
+	if (w <= 1) c.metric(metric, (double)w);
+	return w <= 1;
+}
+// two candidate readings: returns bit 0 / bit 1 for the readings that hold, metric from the better one
+template <class T> static int matches2(pbt::Ctx& c, const char* metric, const T* g, const Prod& p1, const Prod& p2, int n) {
+	R w1 = worst_ratio(g, p1, n), w2 = worst_ratio(g, p2, n), w = w1 < w2 ? w1 : w2;
+	if (w <= 1) c.metric(metric, (double)w);
+	return (w1 <= 1 ? 1 : 0) | (w2 <= 1 ? 2 : 0);
 }
 static M4 zeroM() { return zero4(); }
 
@@ -202,7 +212,10 @@ template <class T> static void scale_p(pbt::Ctx& c) {
 	M4 E = ident4(); for (int i = 0; i < 3; ++i) { E.m[i][i] = (R)s; E.m[3][i] = (R)b; }
 	Prod p = product<T>(lift16(a), E, zeroM(), 4);
 	to16(glm::scaleBias(g4(a), s, b), g);
-	if (!matches(c, "scaleBias(M,s,b) err/tol", g, p, 4)) c.failk("scaleBias/mat4/M*SB(scale,bias)", "scaleBias(M,%.9g,%.9g)=%s is not M*[diag(s,s,s,1)|(b,b,b,1)] for M=%s", (double)s, (double)b, mstr(g).c_str(), mstr(a).c_str());
+	if (!matches(c, "scaleBias(M,s,b) err/tol", g, p, 4)) {
+		if (!c.verbose) c.fail("scaleBias/mat4/M*SB(scale,bias)", "differs");
+		else c.failk("scaleBias/mat4/M*SB(scale,bias)", "scaleBias(M,%.9g,%.9g)=%s is not M*[diag(s,s,s,1)|(b,b,b,1)] for M=%s", (double)s, (double)b, mstr(g).c_str(), mstr(a).c_str());
+	}
 	T sb[16]; for (int i = 0; i < 16; ++i) sb[i] = 0;
 	sb[0] = sb[5] = sb[10] = s; sb[12] = sb[13] = sb[14] = b; sb[15] = 1;
 	to16(glm::scaleBias<T, glm::defaultp>(s, b), g);
@@ -270,11 +283,16 @@ template <class T> static void shear2_p(pbt::Ctx& c) {
 		Prod pd = product<T>(M3, Ed, zeroM(), 3), pt = product<T>(M3, Et, zeroM(), 3);
 		to16(w == 0 ? glm::shearX(g3(a3), s) : glm::shearY(g3(a3), s), g);
 		const char* fn = w == 0 ? "shearX" : "shearY";
-		bool doc = matches(c, "shearX/shearY(mat3) err/tol", g, pd, 3), tr = matches(c, "shearX/shearY(mat3) err/tol", g, pt, 3);
+		int mm = matches2(c, "shearX/shearY(mat3) err/tol", g, pd, pt, 3);
+		bool doc = mm & 1, tr = mm & 2;
 		if (s != 0) {
 			if (!doc && !tr) c.failk(std::string(fn) + "/mat3/not-an-elementary-shear", "%s(M,%.9g)=%s is neither M*[x'=x+k*y] nor M*[y'=y+k*x], M=%s", fn, (double)s, mstr(g, 3).c_str(), mstr(a3, 3).c_str());
-			else if (!doc) c.failk(std::string(fn) + "/mat3/documented-direction", "%s(M,k=%.9g) with M=%s gives %s = M*[%s]: documented as a shear parallel to the %s axis, i.e. M*[%s]", fn, (double)s, mstr(a3, 3).c_str(), mstr(g, 3).c_str(),
-			                   w == 0 ? "y'=y+k*x" : "x'=x+k*y", w == 0 ? "x" : "y", w == 0 ? "x'=x+k*y" : "y'=y+k*x");
+			else if (!doc) {  // (the matrices are only printed when the case is being described: this key fires on most cases of the unchanged tree)
+				static const char* const KD[] = {"shearX/mat3/documented-direction", "shearY/mat3/documented-direction"};
+				if (!c.verbose) c.fail(KD[w], "transposed");
+				else c.failk(KD[w], "%s(M,k=%.9g) with M=%s gives %s = M*[%s]: documented as a shear parallel to the %s axis, i.e. M*[%s]", fn, (double)s, mstr(a3, 3).c_str(), mstr(g, 3).c_str(),
+				             w == 0 ? "y'=y+k*x" : "x'=x+k*y", w == 0 ? "x" : "y", w == 0 ? "x'=x+k*y" : "y'=y+k*x");
+			}
 		} else if (!doc) c.failk(std::string(fn) + "/mat3/zero-factor", "%s(M,0) != M", fn);
 	}
 	// --- transform2 2D
@@ -283,7 +301,8 @@ template <class T> static void shear2_p(pbt::Ctx& c) {
 		if (w == 0) { E1.m[1][0] = (R)s; E2.m[0][1] = (R)s; } else { E1.m[0][1] = (R)s; E2.m[1][0] = (R)s; }
 		Prod p1 = product<T>(M3, E1, zeroM(), 3), p2 = product<T>(M3, E2, zeroM(), 3);
 		to16(w == 0 ? glm::shearX2D(g3(a3), s) : glm::shearY2D(g3(a3), s), g);
-		bool r1 = matches(c, "shear*2D err/tol", g, p1, 3), r2 = matches(c, "shear*2D err/tol", g, p2, 3);
+		int mm = matches2(c, "shear*2D err/tol", g, p1, p2, 3);
+		bool r1 = mm & 1, r2 = mm & 2;
 		if (!r1 && !r2) c.failk(w == 0 ? "shearX2D/mat3/not-an-elementary-shear" : "shearY2D/mat3/not-an-elementary-shear", "shear%c2D(M,%.9g)=%s is neither M*[x'=x+k*y] nor M*[y'=y+k*x], M=%s", w == 0 ? 'X' : 'Y', (double)s, mstr(g, 3).c_str(), mstr(a3, 3).c_str());
 		else if (s != 0) c.cls(r1 ? "transform2 2D: named axis is displaced (x'=x+k*y for X)" : "transform2 2D: named axis drives (y'=y+k*x for X)");
 	}
@@ -295,7 +314,8 @@ template <class T> static void shear2_p(pbt::Ctx& c) {
 		E2.m[i][A] = (R)s; E2.m[j][A] = (R)t;   // p'_A = p_A + s p_i + t p_j              (axis A is displaced)
 		Prod p1 = product<T>(M, E1, zeroM(), 4), p2 = product<T>(M, E2, zeroM(), 4);
 		to16(A == 0 ? glm::shearX3D(g4(a), s, t) : A == 1 ? glm::shearY3D(g4(a), s, t) : glm::shearZ3D(g4(a), s, t), g);
-		bool r1 = matches(c, "shear*3D err/tol", g, p1, 4), r2 = matches(c, "shear*3D err/tol", g, p2, 4);
+		int mm = matches2(c, "shear*3D err/tol", g, p1, p2, 4);
+		bool r1 = mm & 1, r2 = mm & 2;
 		static const char* const K[] = {"shearX3D/mat4/not-an-elementary-shear", "shearY3D/mat4/not-an-elementary-shear", "shearZ3D/mat4/not-an-elementary-shear"};
 		if (!r1 && !r2) c.failk(K[A], "shear%c3D(M,%.9g,%.9g)=%s is M times neither reading of the elementary shear, M=%s", "XYZ"[A], (double)s, (double)t, mstr(g).c_str(), mstr(a).c_str());
 		else if (s != 0 || t != 0) c.cls(r1 ? "transform2 3D: named axis drives the other two" : "transform2 3D: named axis is displaced");
